@@ -129,7 +129,8 @@ def run_slice_mon(job: dict, prop: str, obligations: Callable[[Counter], int],
                       "c07_steps_in_window", "trigger_demands", "trigger_while_dest_inflight",
                       "trigger_demands_beyond_until", "self_steps_beyond_until", "future_output_times",
                       "c03_steps_checked", "c03_slots_matched", "c03_persistent_slots", "c03_event_slots",
-                      "c03_init_slots", "c03_collapsed", "c03_tolerated_none", "label_crosscheck_ok",
+                      "c03_init_slots", "c03_collapsed", "c03_tolerated_none",
+                      "c03_persistent_slots_value_announced_for_later_time", "label_crosscheck_ok",
                       "label_crosscheck_mismatch", "events"):
                 if a.stats.get(k):
                     C[k] += a.stats[k]
